@@ -799,8 +799,9 @@ def _r5(ctx, pkg):
     ctx.floor("R5", "comparison methods", n, 6)
 
 
-def _r7(ctx, pkg):
-    """The string modes compare the formatted reactions, and `Reaction.__format__` makes that text independent of the order of
+def _r7(ctx, pkg, rule="R7", consequence=None):
+    """(Shared with C17, which adopts it for the order of Network.species: `consequence` is what a tie means there.)
+    The string modes compare the formatted reactions, and `Reaction.__format__` makes that text independent of the order of
     the reactants / products by listing the names in `sorted()` order -- the order `Species.__lt__` defines.  That text is canonical
     only if two species with DIFFERENT names never tie (a tie keeps the input order: `H + #H` and `#H + H` format differently and
     the permuted copy is entered as a new key).  Necessary and checked: the key `__lt__` compares contains the name itself, on
@@ -810,7 +811,7 @@ def _r7(ctx, pkg):
     lt = ci.methods.get("__lt__")
     K = "Species.__lt__:distinct names never tie"
     if lt is None:
-        ctx.missing("R7", K, (SF, ci.node.lineno), "Species.__lt__ vanished (sorted() of species in Reaction.__format__ depends on it)")
+        ctx.missing(rule, K, (SF, ci.node.lineno), "Species.__lt__ vanished (sorted() of species in Reaction.__format__ depends on it)")
         return
     ctx.saw(SF, "Species.__lt__")
     rx = returned_bool(lt, lambda name: pkg.resolve("Species", name)[1])
@@ -823,7 +824,7 @@ def _r7(ctx, pkg):
         if len(cands) == 1 and not rest and len(dnf(rx)) == 1:
             cmp_ = cands[0]
     if cmp_ is None:
-        ctx.unrec("R7", K, (SF, lt.lineno), f"the value __lt__ returns is not one `<` comparison of two keys: {ast.unparse(rx)[:100] if rx is not None else 'not understood'}")
+        ctx.unrec(rule, K, (SF, lt.lineno), f"the value __lt__ returns is not one `<` comparison of two keys: {ast.unparse(rx)[:100] if rx is not None else 'not understood'}")
         return
     props = {m: fn for m, fn in ci.methods.items() if isinstance(fn, ast.FunctionDef) and any(ast.unparse(d) in ("property", "functools.cached_property", "cached_property") for d in fn.decorator_list)}
 
@@ -873,17 +874,17 @@ def _r7(ctx, pkg):
         if len(names) == 1:
             sides[names.pop()] = e
     if set(sides) != set(args):
-        ctx.unrec("R7", K, (SF, cmp_.lineno), f"the comparison does not have one key per operand: {ast.unparse(cmp_)[:100]}")
+        ctx.unrec(rule, K, (SF, cmp_.lineno), f"the comparison does not have one key per operand: {ast.unparse(cmp_)[:100]}")
         return
     got = {v: has_name(e, v) for v, e in sides.items()}
     found = " ".join(ast.unparse(cmp_).split())[:120]
     if any(x is None for x in got.values()):
-        ctx.unrec("R7", K, (SF, cmp_.lineno), f"cannot tell whether the compared key contains the name: {found}")
+        ctx.unrec(rule, K, (SF, cmp_.lineno), f"cannot tell whether the compared key contains the name: {found}")
     else:
         ok = all(got.values())
-        ctx.check(ok, "R7", K, (SF, cmp_.lineno), "the order of species is decided by a key that contains the name: two species with different names never tie" if ok else
+        ctx.check(ok, rule, K, (SF, cmp_.lineno), "the order of species is decided by a key that contains the name: two species with different names never tie" if ok else
                   "Species.__lt__ compares a key that does not contain the name: species with different names can tie (H / #H, #1H / #2H under basename and charge), sorted() "
-                  "then keeps their input order, `Reaction.__format__` prints permuted copies of a reaction differently and the string modes of find_duplicate_reaction miss them",
+                  "then keeps their input order, " + (consequence or "`Reaction.__format__` prints permuted copies of a reaction differently and the string modes of find_duplicate_reaction miss them"),
                   expected="self.name < o.name (or a tuple key with the name as a component)", found=found)
 
 
